@@ -83,6 +83,11 @@ def gen_cases(tier: str, seed: int):
                      ["create_table", "DB1", "S1", "T1", [["A", "INT", False]], "c2", True, False, False], ["noop", "DB1", "S1", "T1", "cluster_by"],
                      ["create_table", "DB1", "S2", "T1", [["B", "VARCHAR(255)", False]], None, False, False, False], ["noop", "DB1", "S2", "T1", "unset_var"],
                      ["set_comment", "DB1", "S2", "T1", ""], ["noop", "DB1", "S1", "T1", "set_var"], ["comment_on", "DB1", "S1", "T1", ""], ["noop", "DB1", "S1", "T1", "set_var"]]}
+    yield {"steps": [["create_table", "DB1", "S1", "T1", [["A", "VARCHAR(10)", False], ["B", "INT", False]], "a table", False, False, False],
+                     ["create_table", "DB1", "S1", "T2", [["A", "VARCHAR(255)", False], ["Z", "INT", False]], None, False, False, False],
+                     ["add_column", "DB1", "S1", "T2", "A", "VARCHAR(10)", True], ["add_column", "DB1", "S1", "T2", "F", "VARCHAR(10)", True],
+                     ["drop_table", "DB1", "S1", "T1"], ["create_view", "DB1", "S1", "T1", "T2"], ["drop_view", "DB1", "S1", "T1"],
+                     ["create_table", "DB1", "S1", "T1", [["A", "INT", False]], None, False, False, False]]}
     for _ in range(n):
         steps = []
         for _ in range(r.randint(5, maxsteps)):
@@ -99,7 +104,7 @@ def gen_cases(tier: str, seed: int):
             elif x < 0.46:
                 steps.append(["drop_table", db, sc, t])
             elif x < 0.54:
-                steps.append(["add_column", db, sc, t, r.choice(COLN + ["F"]), r.choice(TNAMES)])
+                steps.append(["add_column", db, sc, t, r.choice(COLN + ["F"]), r.choice(TNAMES), r.random() < 0.35])
             elif x < 0.60:
                 c = r.choice(COLN)
                 steps.append(["drop_column", db, sc, t, c])
@@ -112,13 +117,13 @@ def gen_cases(tier: str, seed: int):
             elif x < 0.86:
                 steps.append([r.choice(["comment_on", "set_comment"]), db, sc, t, r.choice(["new", "other", ""])])
             elif x < 0.90:
-                steps.append(["create_view", db, sc, r.choice(["V1", "V2"]), r.choice(TABS)])
+                steps.append(["create_view", db, sc, r.choice(["V1", "V2"] + TABS), r.choice(TABS)])
             elif x < 0.93:
                 steps.append([r.choice(["failing_create", "failing_ctas", "failing_drop_other"]), db, sc, t, _cols(r)])
             elif x < 0.96:
                 steps.append(["noop", db, sc, t, r.choice(["set_var", "set_tag", "cluster_by", "unset_var"])])
             else:
-                steps.append(["drop_view", db, sc, r.choice(["V1", "V2"])])
+                steps.append(["drop_view", db, sc, r.choice(["V1", "V2"] + TABS)])
         yield {"steps": steps}
 
 
@@ -196,10 +201,24 @@ def _run(case: dict, env: core.Env, fs: Any) -> None:
                 continue
             sql = f"DROP TABLE {fq}"
         elif op == "add_column":
-            _, db, sc, t, c, ty = st
-            if not exists or model[key]["kind"] != "table" or any(x[0] == c for x in model[key]["cols"]) or _has_view_on(model, key):
+            _, db, sc, t, c, ty = st[:6]
+            ine = len(st) > 6 and st[6]
+            if not exists or model[key]["kind"] != "table" or _has_view_on(model, key):
                 continue
-            sql = f"ALTER TABLE {fq} ADD COLUMN {c} {ty}"
+            if any(x[0] == c for x in model[key]["cols"]):
+                if not ine:
+                    continue
+                # ADD COLUMN IF NOT EXISTS over an existing column: a no-op, whatever it declares
+                sql = f"ALTER TABLE {fq} ADD COLUMN IF NOT EXISTS {c} {ty}"
+                env.cover("op", "add_column_if_not_exists/exists")
+                out = core.run_stmt(cur, sql)
+                if not out["ok"]:
+                    env.count("noop_statement_rejected")
+                    continue
+                _observe(env, {"DB1": conn, "DB2": obs}, model, f"step {si} {sql!r} (no-op)", "add_column_if_not_exists")
+                altered = True
+                continue
+            sql = f"ALTER TABLE {fq} ADD COLUMN {'IF NOT EXISTS ' if ine else ''}{c} {ty}"
         elif op == "drop_column":
             c = st[4]
             if not exists or model[key]["kind"] != "table" or not any(x[0] == c for x in model[key]["cols"]) or len(model[key]["cols"]) < 2:
